@@ -1,4 +1,4 @@
-\* one Elasticsearch store, larger bounds (4 records, two retries, three opens); repaired variant
+\* one Elasticsearch store, larger bounds (6 records = three chunks, two retries, four opens); repaired variant
 SPECIFICATION Spec
 CONSTANTS
   TypeOf <- TEsEs
@@ -15,11 +15,11 @@ CONSTANTS
   MaxRetries = 2
   Alpha <- AlphaAll
   RefreshAlpha <- RBoth
-  MaxRecs = 4
+  MaxRecs = 6
   MaxClock = 0
   MaxMeta = 0
-  MaxCalls = 4
-  MaxOpens = 3
+  MaxCalls = 6
+  MaxOpens = 4
   ExplicitRel = 5
   ExplicitAbs = 7
   IdempotentIds = TRUE
